@@ -226,6 +226,24 @@ fn judge(o: &Opts, bin: &std::path::Path, backend: &str, scratch: &std::path::Pa
                         Err(e) => f.push(Finding::new("CLI-KEY-UNLOADABLE", what, e)),
                     }
                 }
+                // both keys are of the algorithm the option names (ECDSA P-256 when none is given)
+                let want_alg = match o.alg {
+                    "--ed25519" => refmodel::state::Alg::Ed25519,
+                    "--ecdsa-p384" => refmodel::state::Alg::EcP384,
+                    "--ecdsa-p521" => refmodel::state::Alg::EcP521,
+                    "--rsa" => refmodel::state::Alg::RsaSha256,
+                    _ => refmodel::state::Alg::EcP256,
+                };
+                for (cert, what) in [(&l, "end-entity certificate"), (&c, "CA certificate")] {
+                    let want = want_alg.spki_alg_der();
+                    let at = cert.spki_raw.windows(want.len()).position(|w| w == want);
+                    if at.map(|p| p > 4).unwrap_or(true) {
+                        f.push(Finding::new("CLI-KEY-ALGORITHM", what, format!("the public key is not of the algorithm requested by {:?}", if o.alg.is_empty() { "(default)" } else { o.alg })));
+                    }
+                    if cert.outer_alg_raw != want_alg.sig_alg_der() {
+                        f.push(Finding::new("CLI-KEY-ALGORITHM", what, format!("the signature algorithm is not the one that goes with {:?}", if o.alg.is_empty() { "(default)" } else { o.alg })));
+                    }
+                }
                 // chain
                 let purpose = if o.client && !o.server { Purpose::Client } else { Purpose::Server };
                 if let Err(e) = openssl_chain(leaf, &[], ca, 1_717_200_000, Purpose::Any, false) {
